@@ -68,6 +68,9 @@ func init() {
 		},
 		Plan: ledgerPlan(8, 56),
 		Worker: func(w *core.WorkerCtx) {
+			if w.Batch == 0 {
+				c01Witness(w)
+			}
 			runRandomScenarios(w, []string{"C01"}, w.Pick(12, 60), func(p *ledger.Profile) { p.POverdraft = 0.35; p.PForge = 0.2 }, nil)
 			c01Truncation(w)
 		},
@@ -88,13 +91,14 @@ func init() {
 	core.Register(&core.Check{
 		Spec: core.Spec{
 			Prop:        "C09",
-			Rule:        "Same scenario engine. After every operation the snapshot must be a well-formed DAG: declared-parent graph acyclic (Kahn); every live non-genesis vertex has an edge from each distinct declared parent that is live and from nothing else; a declared parent that is not live is checkpointed; graph id = storage key = vertex hash; hash, sealing, issuer and receiver signatures recompute (harness's own rendering and the node's own verify). Every vertex returned by CreateLeaf references tips of the previous snapshot that survived the call and has weight max(parents)+1; a failed add leaves no new vertex or index entry. Non-trivial = every snapshot after a mutating operation; distinct by (operation, outcome, tip/live/parked buckets).",
+			Rule:        "Same scenario engine. After every operation the snapshot must be a well-formed DAG: declared-parent graph acyclic (Kahn); every live non-genesis vertex has an edge from each distinct declared parent that is live and from nothing else; a declared parent that is not live is checkpointed; graph id = storage key = vertex hash; hash, sealing, issuer and receiver signatures recompute (harness's own rendering and the node's own verify). Every vertex returned by CreateLeaf references tips of the previous snapshot that survived the call and has weight max(parents)+1; a failed add leaves no new vertex or index entry. One batch runs a two-node 1060-vertex ledger through a truncation and 60 hostile operations afterwards (weights above 1000, checkpointed parents). Non-trivial = every snapshot after a mutating operation; distinct by (operation, outcome, tip/live/parked buckets).",
 			Assumptions: []string{ledgerAssume},
 			MinEvals:    300, MinNontriv: 10,
 		},
 		Plan: ledgerPlan(8, 56),
 		Worker: func(w *core.WorkerCtx) {
 			runRandomScenarios(w, []string{"C09"}, w.Pick(12, 60), func(p *ledger.Profile) { p.PForge = 0.25; p.PReplay = 0.12 }, nil)
+			c09Truncation(w)
 		},
 	})
 	core.Register(&core.Check{
